@@ -194,7 +194,7 @@ def build_harness(flavour, harness_src, name=None, with_malloc=False, extra_flag
     ldflags = ["-pthread", "-ldl", "-rdynamic"] + list(fl.get("link", []))
     if rt:
         link.append(rt)
-        ldflags += ["-Wl,--wrap=free"]
+        ldflags += ["-Wl,--wrap=free", "-Wl,--wrap=__cxa_guard_acquire", "-Wl,--wrap=__cxa_guard_release", "-Wl,--wrap=__cxa_guard_abort"]
     if flavour == "tsan":
         ldflags += ["-fsanitize=thread"]
     key = sha(*sorted(link), " ".join(ldflags), " ".join(extra_link))
